@@ -458,6 +458,9 @@ def correspondence(ctx):
     for shape in small + big:
         m, n = shape
         nt = m * n > 1
+        for shift in (False, True):
+            _check(ctx, 'tf_ones', {'o': _l(_obj(shape, 2)), 'shift': shift}, {'shape': list(shape), 'shift': shift}, nt,
+                   f'shift{int(shift)}/par{m % 2}{n % 2}')
         for rep in range(reps):
             for shift in (False, True):
                 k = int(rng.integers(0, 5))
@@ -483,9 +486,6 @@ def correspondence(ctx):
                 _check(ctx, 'tf_list', inp, desc, nt, tag)
                 if not shift:
                     _check(ctx, 'tf_conventions', inp, desc, nt, tag)
-        for shift in (False, True):
-            _check(ctx, 'tf_ones', {'o': _l(_obj(shape, 2)), 'shift': shift}, {'shape': list(shape), 'shift': shift}, nt,
-                   f'shift{int(shift)}/par{m % 2}{n % 2}')
 
     # ---------------- transfer-function lists given as callables of fx, fy, fr, ft
     for shape in small + big:
